@@ -37,12 +37,14 @@ META = {
                  "post-processing (run-time wrapped) and the real kernel; ORT observation of every annotated value",
     "level_text": "Kernel-checked: annotLe_sound, loosen_weakens, loosen_keeps_io, loosen_sound, loosenModel_weakens "
                   "(every scope, any nesting depth, function bodies), promote_keeps_type_in_sync, broadcastDims_sound "
-                  "(H1 consistent runtime shapes under one binding, H2 numpy-broadcastable). The models agree with the "
+                  "(H1 consistent runtime shapes under one binding, H2 numpy-broadcastable), annotConsistent_sound "
+                  "(accepted scope ⇒ every node-output annotation true, for vocabulary nodes). The models agree with the "
                   "real postprocess_ir_model on every export of the run and with _broadcast_shape_dims on generated lists.",
     "level_note": "PARTIAL: post-processing and the broadcast kernel are proved on the model; the annotations stamped by "
                   "the ~600 plugins and the other optimiser metadata helpers are CHECKED PER EXPORT by observation in "
                   "ORT (top graph and Loop bodies; If branches and function bodies are not observable this way), over "
-                  "a few symbol bindings – sampled, not proved. No annotConsistent checker was built. Trusted: "
+                  "a few symbol bindings – sampled, not proved. annotConsistent_sound covers only the small vocabulary "
+                  "(shape-preserving unary ops, Add/Sub/Mul/Div/Max/Min) and assumes ONNX semantics at those nodes. Trusted: "
                   "translators, ORT as the runtime, Lean's interpreter for per-model runs.",
     "design_ref": "DESIGN.md §3 C08",
 }
@@ -493,6 +495,27 @@ def run(chk: Check) -> None:
     chk.add("traces_validated_against_impl", len(lines))
     chk.info("postprocess_correspondence", {"models": len(lines), "models_changed_by_postprocess": changed,
                                             "disagreements": len(ldis)})
+
+    # ---- (b') proven consistency checker on the PRE-post-processing model (annotations at full strength);
+    #      loosen_sound + the correspondence above carry "true" over to the final model
+    clines = [modeltree.request("consistent", done[k][1]["before"]) for k in idx]
+    canswers = common.run_driver("C08", clines)
+    vocab = cert = 0
+    rejected: list = []
+    for k, a in zip(idx, canswers):
+        if not a.startswith("{"):
+            raise RuntimeError(f"driver C08 consistent: {a[:300]}")
+        r = json.loads(a)
+        vocab += r["vocab"]
+        cert += r["certified"]
+        for x in r["rejected"]:
+            rejected.append({"program": progs.describe(done[k][0].desc), "node": x[:300]})
+    chk.info("annotConsistent", {"vocabulary_nodes": vocab, "certified_by_proven_checker": cert,
+                                 "not_certified": len(rejected), "not_certified_samples": rejected[:8],
+                                 "note": "not certified = output annotation not derivable from the input annotations "
+                                         "(e.g. rank-only loop-body inputs, missing input shape); these values are "
+                                         "covered by the ORT observation only"})
+    chk.log(f"phase consistent done at {round(time.time() - chk.t0, 1)} s ({cert}/{vocab} vocabulary nodes certified)")
 
     # ---- (c) observation oracle on every export
     rng_np = np.random.default_rng(chk.seed)
